@@ -16,6 +16,9 @@
     The cosigner wallets of a group differ in their settings (anti_fee_sniping on / off) and proposals vary locktime and
     replace_by_fee; the body (version, locktime, outpoints, sequences, outputs) TLC reads from raw() after every action
     must be the body of the copy the action started from: no hand-off may change what the signatures commit to.
+    The ceremony address is funded at output indices 0..65536, spends have one to three inputs and are chained; the wallets
+    of a group differ in what they know of the spent output (fetched it / offline signer with the keys only / address not
+    derived): an offline signer must accept object, file and dictionary exports and its signature counts like any other.
 """
 import itertools
 import logging
@@ -99,17 +102,22 @@ def ceremony_job(job):
     try:
         for wi, (perm, holder) in enumerate(wallets):
             ws.append(_create('c%s_%d' % (tag, wi), ms, perm, holder, m, wt, sort, settings[wi]['afs']))
+        # what each wallet knows of the ceremony address (slot 1): 'utxo' = derived it and fetched its outputs, 'keys' =
+        # derived it but never fetched outputs (offline signer), 'none' = has not derived it
+        knows = [st.get('knows', 'utxo') for st in settings]
+        online = [wi for wi in range(len(ws)) if knows[wi] == 'utxo']
         slots = []
         for s in range(nslots):
-            wks = [w.new_key(cosigner_id=0, change=0) for w in ws]
-            if len({k.address for k in wks}) != 1 or len({k.path for k in wks}) != 1:
+            wks = [w.new_key(cosigner_id=0, change=0) if (s == 0 or knows[wi] != 'none') else None for wi, w in enumerate(ws)]
+            got = [k for k in wks if k is not None]
+            if len({k.address for k in got}) != 1 or len({k.path for k in got}) != 1:
                 res['setup'] = 'clause cosigner-wallets-disagree; new_key(cosigner_id=0) number %d gives %s' % (
-                    s + 1, [(k.address, k.path) for k in wks])
+                    s + 1, [(k.address, k.path) for k in got])
                 return res
-            slots.append({'addr': wks[0].address, 'path': wks[0].path, 'key_ids': [k.key_id for k in wks],
-                          'keys': [[x.public_byte.hex() for x in k.key()] for k in wks]})
-        for w in ws:
-            w.utxos_update()
+            slots.append({'addr': got[0].address, 'path': got[0].path, 'key_ids': [k.key_id if k is not None else None for k in wks],
+                          'keys': [[x.public_byte.hex() for x in k.key()] if k is not None else None for k in wks]})
+        for wi in online:
+            ws[wi].utxos_update()
         # further funding of the ceremony address, reported to every cosigner wallet (as a provider would): outputs at
         # higher indices (1, 2, 255, 256, 65536), several outputs of one funding transaction, different amounts
         if len(slots) > 1:
@@ -118,10 +126,10 @@ def ceremony_job(job):
             extra = [{'address': slots[1]['addr'], 'script': '', 'confirmations': 10, 'output_n': idx, 'txid': txid, 'value': val}
                      for txid, idx, val in ((f1, 1, 70000000), (f1, 2, 71000000), (f1, 255, 72000000), (f2, 256, 73000000),
                                             (f2, 65536, 74000000), (f2, 0, 75000000))]
-            for w in ws:
-                w.utxos_update(utxos=[dict(x) for x in extra], rescan_all=False)
+            for wi in online:
+                ws[wi].utxos_update(utxos=[dict(x) for x in extra], rescan_all=False)
         for s in slots:
-            lists = [sorted((u['txid'], u['output_n'], u['value']) for u in w.utxos() if u['address'] == s['addr']) for w in ws]
+            lists = [sorted((u['txid'], u['output_n'], u['value']) for u in ws[wi].utxos() if u['address'] == s['addr']) for wi in online]
             s['points'] = lists[0]
             if len(lists[0]) < 1 or any(x != lists[0] for x in lists):
                 res['setup'] = 'machinery: the cosigner wallets do not list the same funding outputs for %s: %s' % (s['addr'], lists)
@@ -151,6 +159,10 @@ def ceremony_job(job):
         for a in cer['events']:
             op, w, v, form = a['op'], a['w'] - 1, a['v'] - 1, a['form']
             tgt = v if op == 'handoff' else w
+            if op not in ('propose', 'send_to') and copies.get(w) is None:
+                continue                          # (an earlier import was refused: this wallet has nothing to act on)
+            if op == 'send' and waspushed.get(id(copies[w])):
+                continue                          # (... or still holds the copy it has already broadcast)
             err = ''
             try:
                 if op == 'propose':
@@ -207,7 +219,7 @@ def ceremony_job(job):
                     ob['ok'] = False
                     ob['exc'] = (err + ' / ' if err else '') + 'observation raised %r' % (e,)
             evs.append(ob)
-            if err:
+            if err and op != 'handoff':           # a refused import leaves everything as it was; anything else ends the ceremony
                 break
         note = ''
         if change and pushed_t is not None:
@@ -215,8 +227,8 @@ def ceremony_job(job):
             try:
                 n_out = [k for k, o in enumerate(pushed_t.outputs) if o.address == slot['addr']][0]
                 rep = {'address': slot['addr'], 'script': '', 'confirmations': 1, 'output_n': n_out, 'txid': pushed_t.txid, 'value': change}
-                for w in ws:
-                    w.utxos_update(utxos=[dict(rep)], rescan_all=False)
+                for wi in online:
+                    ws[wi].utxos_update(utxos=[dict(rep)], rescan_all=False)
                 slot['points'].append((pushed_t.txid, n_out, change))
                 slot['chainpt'] = len(slot['points']) - 1
             except Exception as e:
@@ -320,12 +332,16 @@ def gen_oversign(rng, m, holders):
     return ev
 
 
-def gen_complete(rng, m, holders):
-    """m wallets of distinct cosigners sign in turn (object / file hand-offs), the last one broadcasts."""
+def gen_complete(rng, m, holders, knows):
+    """m wallets of distinct cosigners sign in turn (object / file hand-offs), the last one broadcasts; the first knows
+    the output, the others know at least the keys."""
     byholder = {}
     for w, h in enumerate(holders, 1):
-        byholder.setdefault(h, []).append(w)
-    order = [rng.choice(byholder[h]) for h in rng.sample(sorted(byholder), m)]
+        if knows[w - 1] != 'none':
+            byholder.setdefault(h, []).append(w)
+    first = rng.choice([w for w in range(1, len(holders) + 1) if knows[w - 1] == 'utxo'])
+    others = [h for h in sorted(byholder) if h != holders[first - 1]]
+    order = [first] + [rng.choice(byholder[h]) for h in rng.sample(others, m - 1)]
     ev = [E('propose', order[0])]
     for k, w in enumerate(order):
         if k > 0:
@@ -333,6 +349,43 @@ def gen_complete(rng, m, holders):
         ev.append(E('sign', w))
     ev.append(E('send', order[-1]))
     return ev
+
+
+def may_refuse(knows, v, form):
+    return knows[v - 1] == 'none' or (knows[v - 1] == 'keys' and form == 'raw')
+
+
+def legalize(events, knows, rng):
+    """Adapt a generated ceremony to what the wallets know: the proposer is swapped with a wallet that knows the output;
+    an import the importer may refuse stays in (the refusal is judged) but the copy is then handed on by the wallet that
+    still holds it; actions of wallets that hold nothing are dropped."""
+    if not events:
+        return events
+    W = len(knows)
+    first = events[0]['w']
+    if knows[first - 1] != 'utxo':
+        other = rng.choice([w for w in range(1, W + 1) if knows[w - 1] == 'utxo'])
+        swap = {first: other, other: first}
+        events = [dict(a, w=swap.get(a['w'], a['w']), v=swap.get(a['v'], a['v'])) for a in events]
+    has, giver, out = set(), {}, []
+    for a in events:
+        a = dict(a)
+        if a['op'] in ('propose', 'send_to'):
+            has.add(a['w'])
+        elif a['op'] == 'handoff':
+            if a['w'] not in has and a['w'] in giver:
+                a['w'] = giver[a['w']]
+            if a['w'] not in has or a['w'] == a['v']:
+                continue
+            if may_refuse(knows, a['v'], a['form']):
+                giver[a['v']] = a['w']
+            else:
+                has.add(a['v'])
+                giver.pop(a['v'], None)
+        elif a['w'] not in has:
+            continue
+        out.append(a)
+    return out
 
 
 def gen_ceremonies(rng, m, holders, budget):
@@ -410,10 +463,10 @@ def agree_plan(rng, thorough):
             elif (m, n) == (2, 2) or (wt == big and (m, n) in ((1, 2), (2, 3))):
                 combos = allc
             elif allc is not None:
-                combos = rng.sample(allc, {(1, 2): 2, (2, 3): 4, (3, 3): 3, (2, 4): 12 if wt == big else 4}[(m, n)])
+                combos = rng.sample(allc, {(1, 2): 2, (2, 3): 4, (3, 3): 3, (2, 4): 8 if wt == big else 3}[(m, n)])
             else:
                 combos = []
-                for _ in range(24 if thorough and n <= 7 else (8 if thorough else 3)):
+                for _ in range(24 if thorough and n <= 7 else (8 if thorough else 2)):
                     p = list(range(n))
                     rng.shuffle(p)
                     combos.append((tuple(p), rng.randrange(n)))
@@ -505,11 +558,11 @@ def run(replay=None):
             ajobs.append((c['seed'], c['m'], c['n'], c['wt'], c['sort'], [(tuple(p), h) for p, h in c['combos']], 'r'))
         else:
             cjobs.append((c['seed'], c['m'], c['n'], c['wt'], c['sort'], [(tuple(p), h) for p, h in c['wallets']], c['nslots'],
-                          [c['ceremony']], 'r', c.get('settings') or [{'afs': True} for _ in c['wallets']]))
+                          [c['ceremony']], 'r', c.get('settings') or [{'afs': True, 'knows': 'utxo'} for _ in c['wallets']]))
     else:
         for k, (m, n, wt, srt, combos) in enumerate(agree_plan(rng, thorough)):
             ajobs.append((seed0 * 1000 + k, m, n, wt, srt, combos, str(k)))
-        budget = 60 if thorough else 18
+        budget = 60 if thorough else 16
         nslots = 2
         for k, (m, n, holders, srt, wt) in enumerate(plan(rng, thorough)):
             W = len(holders)
@@ -520,7 +573,19 @@ def run(replay=None):
                 p = list(range(n))
                 rng.shuffle(p)
                 wallets.append((tuple(p) if srt else tuple(shared), h - 1))
-            cers = gen_ceremonies(rng, m, holders, budget if n <= 5 else 12)
+            # per-wallet settings.  anti_fee_sniping on (the default: locktime = block height) or off (locktime 0), both kinds
+            # in every group.  knows: what the wallet knows of the ceremony address when a copy arrives - 'utxo' (it fetched the
+            # outputs), 'keys' (offline signer: address derived, outputs never fetched), 'none' (address not derived).
+            settings = [{'afs': (i + k) % 2 == 0 if W > 1 else rng.random() < 0.5, 'knows': 'utxo'} for i in range(W)]
+            rng.shuffle(settings)
+            if W > 1 and k % 3 != 0:
+                settings[k % W]['knows'] = 'keys'
+                v = (k + 1) % W
+                rest = {holders[i] for i in range(W) if i != v}
+                if k % 3 == 1 and W >= 3 and len(rest) >= m and any(st['knows'] == 'utxo' for i, st in enumerate(settings) if i != v):
+                    settings[v]['knows'] = 'none'
+            knows = [st['knows'] for st in settings]
+            cers = [legalize(ev, knows, rng) for ev in gen_ceremonies(rng, m, holders, budget if n <= 5 else 12)]
             # funding: the ceremony address has outputs at indices 0, 0, 0, 1, 2, 255, 256, 65536 (two funding transactions with
             # several outputs each); most spends have one input, a quarter two or three; twice per group a completed spend
             # pays change back to the common address and that output (index 1 of a transaction the wallets made themselves)
@@ -531,15 +596,14 @@ def run(replay=None):
                 cl.append({'slot': 1, 'points': pts, 'events': ev})
             for pos in sorted(rng.sample(range(len(cl)), min(2, len(cl))), reverse=True):
                 cl[pos]['chain'] = True
-                cl.insert(pos, {'slot': 1, 'points': [rng.randrange(NPOINTS)], 'change': 20000000, 'events': gen_complete(rng, m, holders)})
+                cl.insert(pos, {'slot': 1, 'points': [rng.randrange(NPOINTS)], 'change': 20000000,
+                                'events': gen_complete(rng, m, holders, knows)})
             # send_to: Propose; Sign; Send in one call, on a slot of its own (the wallet selects the input itself)
-            for w in rng.sample(range(1, W + 1), min(2, W)):
+            onl = [w for w in range(1, W + 1) if knows[w - 1] == 'utxo']
+            for w in rng.sample(onl, min(2, len(onl))):
                 cl.append({'slot': 0, 'point': 0, 'events': [E('send_to', w), E('verify', w)]})
-            # per-wallet settings that influence what a transaction commits to: anti-fee-sniping on (the default: locktime =
-            # block height) or off (locktime 0); both kinds in every group.  Options of the proposing call: an explicit
-            # locktime (block height / time stamp) and replace-by-fee (sequence) - the proposer's choice, never the importer's
-            settings = [{'afs': (i + k) % 2 == 0} if W > 1 else {'afs': rng.random() < 0.5} for i in range(W)]
-            rng.shuffle(settings)
+            # options of the proposing call: an explicit locktime (block height / time stamp) and replace-by-fee (sequence) -
+            # the proposer's choice, never the importer's
             for c in cl:
                 lt, rbf = rng.choice([0, 0, 0, 0, 650000, 1700000000]), rng.random() < 0.25
                 for a in c['events']:
@@ -596,7 +660,7 @@ def run(replay=None):
             for si, slot in enumerate(res['slots']):             # the group's wallets are agreement observations too
                 obs = [{'addr': slot['addr'], 'path': slot['path'], 'keys': slot['keys'][wi], 'who': (list(p), h),
                         'what': 'new_key(cosigner_id=0) number %d' % (si + 1), 'case': dict(base, ceremony=cl[0])}
-                       for wi, (p, h) in enumerate(wallets)]
+                       for wi, (p, h) in enumerate(wallets) if slot['keys'][wi] is not None]
                 recs.append(agree_rec(m, n, wt, srt, ms, [x + 1 for x in wallets[0][0]], obs))
                 meta.append(('a', (m, n, wt, srt, 'slot'), obs))
             for cer, got in zip(cl, res['ceremonies']):
@@ -605,6 +669,7 @@ def run(replay=None):
                 recs.append({'kind': 'ceremony', 'm': m, 'wt': wt, 'net': NET, 'sorted': srt, 'listing': [x + 1 for x in wallets[0][0]],
                              'pubs': [list(p) for p in pubs], 'holder': [h + 1 for _, h in wallets],
                              'afs': [bool(st['afs']) for st in settings], 'height': [1, 0, 0, 0],    # bitcoinlib_test: block count 1
+                             'knows': [st.get('knows', 'utxo') for st in settings],
                              'funds': [{'txid': list(bytes.fromhex(f[0])[::-1]), 'vout': list(f[1].to_bytes(4, 'little')),
                                         'amount': list(f[2].to_bytes(8, 'little'))} for f in got['funds']],
                              'events': [{k: e[k] for k in ('a', 'ok', 'nsig', 'verified', 'verify', 'pushed', 'err', 'rs', 'tx')} for e in got['events']],
@@ -645,9 +710,10 @@ def run(replay=None):
             nvalid += sum(1 for c in v.get('cons', []) if c == 'valid')
             for e in got['events']:
                 ck.case(('cer', m, n, wt, e['a']['op'], e['a']['form'], e['nsig'], e['verified'], e['pushed'],
-                         settings[(e['a']['v'] or e['a']['w']) - 1]['afs'], e['a'].get('lt', -1) > 0, e['a'].get('rbf', False)))
-            text = '%d-of-%d %s wallets(listing, holder, anti_fee_sniping)=%s spending %s: %s' % (
-                m, n, wt, [(list(p), h, st['afs']) for (p, h), st in zip(wallets, settings)], slot['addr'], describe(got['events']))
+                         settings[(e['a']['v'] or e['a']['w']) - 1]['afs'], settings[(e['a']['v'] or e['a']['w']) - 1].get('knows'), e['ok'], e['a'].get('lt', -1) > 0, e['a'].get('rbf', False)))
+            text = '%d-of-%d %s wallets(listing, holder, anti_fee_sniping, knows)=%s spending %s: %s' % (
+                m, n, wt, [(list(p), h, st['afs'], st.get('knows', 'utxo')) for (p, h), st in zip(wallets, settings)], slot['addr'],
+                describe(got['events']))
             if v['v'] != 'ok':
                 ck.violation(None, 'clause %s; event %d of %s' % (v['v'], v['at'], text), case)
             for dev in v['dev']:
